@@ -86,6 +86,11 @@ where
                 }
             }
             chk(&it, 0, total)?;
+            // an iterator run dry by next() is empty for internal iteration too
+            let extra = it.fold(0usize, |a, _| a + 1);
+            if extra != 0 {
+                return Err(format!("{what}: after next() returned None, fold still visits {extra} item(s)"));
+            }
         }
         Tail::Fold => {
             let mut n = 0usize;
@@ -932,6 +937,51 @@ pub fn probe_constructors<K: KeyT, V: ValT>() -> Result<u64, String> {
         count += 11;
     }
     {
+        // clear() and a consumed drain() keep the allocation, also of large and almost empty tables
+        use hashbrown::{HashMap, HashSet, HashTable};
+        for cap in [28usize, 448, 3584, 7168, 20000] {
+            for items in [1usize, 2, 50, 128, 250] {
+                if items > cap {
+                    continue;
+                }
+                let mut m: HashMap<u32, u32, PlanBuild, CheckAlloc> = HashMap::with_capacity_and_hasher_in(cap, PlanBuild::default(), CheckAlloc);
+                let mut st: HashSet<u8, PlanBuild, CheckAlloc> = HashSet::with_capacity_and_hasher_in(cap, PlanBuild::default(), CheckAlloc);
+                let mut t: HashTable<u32, CheckAlloc> = HashTable::with_capacity_in(cap, CheckAlloc);
+                for i in 0..items {
+                    m.insert((i % 250) as u32 | ((i as u32) << 8), i as u32);
+                    st.insert((i % 250) as u8);
+                    t.insert_unique(i as u64, i as u32, |x| *x as u64);
+                }
+                let before = (m.allocation_size(), st.allocation_size(), t.allocation_size(), m.capacity(), st.capacity(), t.capacity());
+                for round in 0..2 {
+                    let (a0, d0) = env::alloc_calls();
+                    if round == 0 {
+                        m.clear();
+                        st.clear();
+                        t.clear();
+                    } else {
+                        m.insert(1, 1);
+                        st.insert(1);
+                        t.insert_unique(1, 1, |x| *x as u64);
+                        let _ = (m.drain().count(), st.drain().count(), t.drain().count());
+                    }
+                    let (a1, d1) = env::alloc_calls();
+                    let after = (m.allocation_size(), st.allocation_size(), t.allocation_size(), m.capacity(), st.capacity(), t.capacity());
+                    if a1 != a0 || d1 != d0 || after != before || !m.is_empty() || !st.is_empty() || !t.is_empty() {
+                        return Err(format!(
+                            "{} of a table with capacity {cap} holding {items} elements: allocation sizes / capacities {:?} -> {:?}, {} allocator calls (the allocation must be kept)",
+                            if round == 0 { "clear()" } else { "drain()" }, before, after, (a1 - a0) + (d1 - d0)
+                        ));
+                    }
+                }
+                count += 1;
+            }
+        }
+        if env::live_bytes() != 0 {
+            return Err("clear / drain probes leaked".into());
+        }
+    }
+    {
         // zero-sized element types: a HashTable can hold any number of them, so the capacity contract applies unchanged
         use hashbrown::{HashMap, HashSet, HashTable};
         #[derive(Clone, Copy, PartialEq, Eq, Hash)]
@@ -1190,7 +1240,9 @@ fn many_map<K: KeyT, V: ValT, const N: usize>(s: &mut MapSut<K, V>, ids: [u8; N]
     let before = sorted(s.model.clone());
     let map = &mut s.map;
     let r = env::catch(|| {
-        let ks: [&KeyRef; N] = std::array::from_fn(|i| &krefs[i]);
+        // repeated requests are passed as the SAME query object (the first one with that id) in half of the
+        // variants, as separate equal objects in the other half
+        let ks: [&KeyRef; N] = std::array::from_fn(|i| if kv == unchecked { &krefs[ids.iter().position(|&x| x == ids[i]).unwrap()] } else { &krefs[i] });
         let mut out: [Option<(usize, u8, u32, u32)>; N] = [None; N];
         if kv {
             // SAFETY (contract of the unchecked variant): no two requests resolve to the same entry
